@@ -8,7 +8,8 @@
 
    Shape of the result:
    (1) `Spec.Valid.Accounted P S` is that statement over the solution document, clause by clause (problem fragment without
-       breaks / reloads / recharges / clustering: none is defined, so none may appear); the executable checker
+       breaks / recharges / clustering: none is defined, so none may appear; RELOADS are in: clause acc_reloads = the reload
+       activities of a tour are DISTINCT reloads defined for its vehicle shift, `Assign`); the executable checker
        `accounted_b` is proved sound and complete for it, and it is what runs (inside Coq) on every document the real
        solver returns.
    (2) Over the model of the solver's bookkeeping primitives (Model/Homes.v) every plan job has exactly one home after ANY
@@ -24,6 +25,15 @@ Proof. exact accounted_b_sound. Qed.
 
 Theorem C02_accounted_b_complete : forall P S, Accounted P S -> accounted_b P S = [].
 Proof. exact accounted_b_complete. Qed.
+
+(* reloads: the backtracking matcher finds an assignment of the tour's reload activities to distinct reloads defined for the
+   tour's vehicle shift (same location, duration, a window that explains the reported start) iff one exists *)
+Theorem C02_reloads_distinct_defined : forall P t, reloads_ok P t = true <-> ReloadsDefined P t.
+Proof. exact reloads_ok_iff. Qed.
+
+Theorem C02_accounted_reloads : forall P S t vt sh, Accounted P S -> In t (sl_tours S) -> shift_of P t = Some (vt, sh) ->
+  Assign (reload_acts t) (sh_reloads sh).
+Proof. intros P S t vt sh HA Hin Hs. exact (acc_reloads P S HA t Hin vt sh Hs). Qed.
 
 (* an accounted document partitions the plan: exactly one tour and not unassigned, or no tour and exactly once unassigned *)
 Theorem C02_accounted_partition : forall P S job, Accounted P S -> In job (pr_jobs P) ->
